@@ -8,6 +8,9 @@ CONSTANTS
   NReps <- MCNRepsPos
   IndexBySortedId = FALSE
   CutAtN = TRUE
+  Sharing = FALSE
+  ReplaceByKey = TRUE
+  MaxReAdd = 0
   CanonicalFirst = TRUE
 INVARIANTS TypeOK C42_SameSet
 CHECK_DEADLOCK FALSE
